@@ -24,6 +24,17 @@ Proof.
   destruct (accept_spec _ _ _ Hacc) as [HN [_ Hres]]. exists N, D. auto.
 Qed.
 
+(* The accepted vector is the least-squares solution, also for inconsistent data (non-affine ensembles): its
+   residual sum of squares |A g - b|^2 is minimal among all vectors, and under full column rank every
+   minimiser equals it. *)
+Theorem C02_lstsq_least_squares : forall n A b g h,
+  lstsq n A b = Some g -> length h = n -> rss A b g <= rss A b h.
+Proof. exact lstsq_minimal. Qed.
+Theorem C02_lstsq_unique_minimiser : forall n A b g g',
+  (forall d, length d = n -> vz (mv A d) -> vz d) -> lstsq n A b = Some g -> length g' = n ->
+  (forall h, length h = n -> rss A b g' <= rss A b h) -> veq g' g.
+Proof. exact lstsq_unique_minimiser. Qed.
+
 (* The 99.9 % energy rule.  For non-negative squared singular values s ++ [x] whose last (smallest)
    element is at least k of the total, nothing is truncated provided 1 - k < tau. *)
 Theorem C02_no_truncation : forall tau k s x, 1 - k < tau ->
@@ -67,6 +78,16 @@ Theorem C02_merged_affine_identical : forall n x rs ws a g, length x = n ->
   estimate_merged n x rs ws = Some g -> veq g a.
 Proof. exact merged_identical. Qed.
 
+(* The same under JOINT rank only: no single realization needs enough successful perturbations (this is what
+   merge_realizations is for: one or two perturbations per realization); it suffices that the difference
+   matrices of the realizations with positive weight, stacked, have full column rank. *)
+Theorem C02_merged_affine_identical_joint : forall n x rs ws a g, length x = n -> length a = n ->
+  (forall r w, In (r, w) (combine rs ws) -> 0 <= w /\ exists c, affine_on n x a c r) ->
+  (forall d, length d = n ->
+     (forall r w, In (r, w) (combine rs ws) -> 0 < w -> vz (mv (fst (system_of x r)) d)) -> vz d) ->
+  estimate_merged n x rs ws = Some g -> veq g a.
+Proof. exact merged_identical_joint. Qed.
+
 (* Merged estimation, shared perturbations: all contributing realizations have the same difference
    matrix A (same perturbations, same successful rows), weights sum to one. *)
 Theorem C02_merged_affine_shared : forall n x A rs ws sl g, length x = n -> wfm n A -> full_rank n A ->
@@ -95,6 +116,23 @@ Theorem C02_sd_chain_rule : forall n c (w f : vec) (sl : list vec) (d : vec) t,
   == wvariance c w f + 2 * t * rdot (sd_grad_times_sd n c w f sl) d + t * t * wvariance c w u.
 Proof. exact sd_chain_rule. Qed.
 
+(* sigma = 0 (all values that carry weight coincide): sigma * grad sigma vanishes, so the zeros the
+   estimator returns in that case agree with the chain-rule expression. *)
+Theorem C02_sd_zero_variance : forall n c (w f : vec) gs, ~ c == 0 -> length f = length w -> length gs = length w ->
+  Forall (fun g => length g = n) gs -> Forall (fun x => 0 <= x) w ->
+  wvariance c w f == 0 -> vz (sd_grad_times_sd n c w f gs).
+Proof. exact sd_zero_variance. Qed.
+
+(* Variable scaling.  The user's evaluator sees from_optimizer y = y * s + o.  If realization r is affine in
+   user coordinates with slope a, then in optimizer coordinates (where the perturbations, the differences and
+   the reported gradient live) it is affine with slope s (.) a; so every theorem above applies with the
+   slopes [scale_slope s a], which is what the checker compares the reported gradients with. *)
+Theorem C02_variable_scaling : forall n s o x a c r, length s = n -> length o = n -> length x = n ->
+  Forall (fun p => length p = n) (r_X r) ->
+  affine_on n (from_optimizer s o x) a c (map_rdata_X (from_optimizer s o) r) ->
+  affine_on n x (scale_slope s a) (rdot a o + c) r.
+Proof. exact affine_on_scaled. Qed.
+
 (* Fixed variables: the reported vector has one entry per variable, entries of fixed variables are the
    literal 0, and the free positions carry the estimate computed on the restricted problem, in order. *)
 Theorem C02_fixed_entries_zero : forall mask x rs failed w e merge G,
@@ -105,6 +143,14 @@ Theorem C02_fixed_entries_zero : forall mask x rs failed w e merge G,
                                     failed w e merge) = Some g /\
             G = expand_with_zeros mask g /\ restrict_free mask G = g.
 Proof. exact compute_gradient_expansion. Qed.
+
+(* The matrix handed to the optimizer callback (weighted-objective gradient, then the constraint gradients,
+   free columns only) consists exactly of the estimates of the restricted problem: no column of a fixed
+   variable, the free ones unchanged and in order. *)
+Theorem C02_optimizer_matrix : forall mask gw gcs,
+  length gw = count_true mask -> Forall (fun g => length g = count_true mask) gcs ->
+  optimizer_matrix mask (expand_with_zeros mask gw) (map (expand_with_zeros mask) gcs) = gw :: gcs.
+Proof. exact optimizer_matrix_expand. Qed.
 
 (* Weighted-objective gradient: entry k is sum_j ow_j * (objective gradient j)_k. *)
 Theorem C02_weighted_objective : forall n ow gs k, Forall (fun g => length g = n) gs ->
@@ -140,8 +186,26 @@ Proof.
   repeat constructor; [|]; Lqa.lra.
 Qed.
 
+(* Non-vacuity of the joint-rank, scaling and optimizer-matrix statements: two identical realizations with ONE
+   perturbation each (each difference matrix alone is rank deficient: the per-realization solve has no unique
+   answer) whose stack has full rank -- the merged estimate is the exact slope; the VariableScaler map of the
+   known finding C11 example; the matrix the optimizer gets for mask (free, fixed, free). *)
+Example C02_example_joint :
+  let x := [0; 0] in
+  let f p := match p with [a; b] => Some (2 * a - 3 * b + 1) | _ => None end in
+  let r1 := {| r_X := [[1; 0]]; r_f0 := f x; r_fp := [f [1; 0]] |} in
+  let r2 := {| r_X := [[0; 1]]; r_f0 := f x; r_fp := [f [0; 1]] |} in
+  estimate_merged 2 x [r1; r2] [1 # 2; 1 # 2] = Some [2; -3] /\
+  lstsq 2 (fst (system_of x r1)) (snd (system_of x r1)) = None /\
+  optimizer_matrix [true; false; true] [7 # 2; 0; 0] [[1; 0; 2]] = [[7 # 2; 0]; [1; 2]] /\
+  from_optimizer [2; 4] [1; 1] [3; 5] = [7; 21] /\
+  rss [[1; 0]; [0; 1]; [1; 1]] [1; 1; 0] [1 # 3; 1 # 3] == 4 # 3.
+Proof. repeat split; vm_compute; reflexivity. Qed.
+
 Print Assumptions C02_lstsq_exact.
 Print Assumptions C02_accepted_satisfies_normal_equations.
+Print Assumptions C02_lstsq_least_squares.
+Print Assumptions C02_lstsq_unique_minimiser.
 Print Assumptions C02_no_truncation.
 Print Assumptions C02_svd_tolerance_in_range.
 Print Assumptions C02_bound_implies_no_truncation.
@@ -149,8 +213,12 @@ Print Assumptions C02_weights_normalised.
 Print Assumptions C02_failed_weight_zero.
 Print Assumptions C02_mean_affine.
 Print Assumptions C02_merged_affine_identical.
+Print Assumptions C02_merged_affine_identical_joint.
 Print Assumptions C02_merged_affine_shared.
 Print Assumptions C02_sd_affine.
 Print Assumptions C02_sd_chain_rule.
+Print Assumptions C02_sd_zero_variance.
+Print Assumptions C02_variable_scaling.
 Print Assumptions C02_fixed_entries_zero.
+Print Assumptions C02_optimizer_matrix.
 Print Assumptions C02_weighted_objective.
